@@ -657,6 +657,7 @@ type loopInfo struct {
 	ord    int
 	writeRows []*Term // 'loop <n> writes': the only backing arrays whose elements the loop writes
 	head   *State // state at the loop head (after havoc and invariants), for prev() in step clauses
+	earlyExits []*Term // path conditions of the edges that leave the loop from inside its body (break, return)
 }
 
 func (fr *Frame) key() string { return fnKey(fr.fn) }
@@ -1242,6 +1243,11 @@ func (fr *Frame) run(st *State) (*State, []*Term) {
 				exits = append(exits, cur)
 				exitVals = append(exitVals, vals)
 				terminated = true
+				for _, li := range fr.loops {
+					if b != li.header && li.body[b] {
+						li.earlyExits = append(li.earlyExits, cur.pc)
+					}
+				}
 			case *ssa.Panic:
 				fr.safetyOb(cur, in, "panic", f.False())
 				terminated = true
@@ -1289,7 +1295,33 @@ func (fr *Frame) pushEdge(incoming map[*ssa.BasicBlock][]edge, from, to *ssa.Bas
 		}
 		return
 	}
+	// an edge that leaves a loop from inside its body (not from the header's own test): a break or the like
+	for _, li := range fr.loops {
+		if from != li.header && li.body[from] && to != li.header && !li.body[to] {
+			li.earlyExits = append(li.earlyExits, st.pc)
+		}
+	}
 	incoming[to] = append(incoming[to], edge{from: from, st: st})
+}
+
+// loopCompleteObligations: 'loop <n> complete' - the loop is left only through its header, i.e. after the last
+// element: every edge that leaves it from inside the body (break, goto) is unreachable. The obligation exists
+// (trivially true) when there is no such edge, so that it is part of the baseline and a later early exit fails it.
+func (fr *Frame) loopCompleteObligations(ct *Contract) {
+	ex := fr.ex
+	f := ex.f
+	for _, li := range fr.loops {
+		for k, cl := range ct.Invs {
+			if cl.Loop != li.ord || cl.Kind != "complete" || !cl.HasTag(ex.prop) {
+				continue
+			}
+			goal := f.True()
+			for _, pc := range li.earlyExits {
+				goal = f.And(goal, f.Not(pc))
+			}
+			ex.addOblig(&Obligation{Name: fmt.Sprintf("%s/loop-complete@%s", fr.key(), fr.invName(li, cl, k)), Kind: "loop-complete", Fn: fr.rootKey(), Goal: goal, PC: f.True(), Clause: cl})
+		}
+	}
 }
 
 // step executes one non-terminator instruction. Returns false if the path ends.
